@@ -71,7 +71,8 @@ Fixpoint tz_pos (p : positive) : Z :=
 Fixpoint to_pos (p : positive) : Z :=
   match p with
   | xI q => 1 + to_pos q
-  | _ => 0
+  | xH => 1
+  | xO _ => 0
   end.
 
 Definition two64 : Z := 2 ^ 64.
